@@ -25,20 +25,19 @@ impl Mode {
             panic!("Failed to encode any data. Possible programming error.");
         }
 
+        // every Insim packet is a multiple of 4 bytes, whatever the mode
+        if len % 4 != 0 {
+            // probably a programming error, lets bail.
+            panic!(
+                "Packet length is not divisible by 4!
+                This is probably a programming error."
+            );
+        }
+
         // the length passed must include the placeholder byte for the packet size!
         let n = match self {
             Mode::Uncompressed => len,
-            Mode::Compressed => {
-                if let Some(0) = len.checked_rem(4) {
-                    len / 4
-                } else {
-                    // probably a programming error, lets bail.
-                    panic!(
-                        "Packet length is not divisible by 4!
-                        This is probably a programming error."
-                    );
-                }
-            },
+            Mode::Compressed => len / 4,
         };
 
         if len > self.max_length() {
